@@ -1,5 +1,5 @@
 SPECIFICATION TSpec
-CONSTANT Dev = {"UpdateStampsCreator", "NoWriteSetValidation", "CheckpointNotAtomic", "DropNotAtomic"}
+CONSTANT Dev = {"UpdateStampsCreator", "NoWriteSetValidation", "CheckpointNotAtomic"}
 INVARIANT UniqueHolds
 POSTCONDITION Accepted
 CHECK_DEADLOCK FALSE
